@@ -93,39 +93,37 @@ def observe(globs, extra_skip=()):
 
 def run_pair(src, text, seconds=5, env_factory=None):
     """Returns (result_src, result_conv); a result is dict(stdout, globals, exc).
-    Both programs run in a forked child of this process: a program on which the INTERPRETER itself dies (CPython 3.13.0
-    segfaults on some comprehension / class-body scripts) is reported as an exception of that program instead of taking a
-    pool worker - and with it the whole check - down."""
+    The script and the converted text each run in their OWN forked child of this process: neither sees what the other left
+    behind in the interpreter (modules it imported, monkey patches), and a program on which the INTERPRETER itself dies
+    (CPython 3.13.0 segfaults on some comprehension / class-body scripts) is reported as an exception of that program instead
+    of taking a pool worker - and with it the whole check - down."""
     import json
-    r, w = os.pipe()
-    pid = os.fork()
-    if pid == 0:
-        code = 1
-        try:
-            os.close(r)
-            with os.fdopen(w, "w") as out:
-                for one in (src, text):
-                    res = _run_pair_here(src, text, seconds, env_factory, only=one is text)
+
+    def child(which):
+        r, w = os.pipe()
+        pid = os.fork()
+        if pid == 0:
+            code = 1
+            try:
+                os.close(r)
+                with os.fdopen(w, "w") as out:
+                    res = _run_pair_here(src, text, seconds, env_factory, only=which)
                     out.write(json.dumps(res) + "\n")
                     out.flush()
-            code = 0
-        finally:
-            os._exit(code)
-    os.close(w)
-    with os.fdopen(r) as inp:
-        data = inp.read()
-    _, status = os.waitpid(pid, 0)
-    lines = [l for l in data.split("\n") if l]
-    got = []
-    for l in lines[:2]:
+                code = 0
+            finally:
+                os._exit(code)
+        os.close(w)
+        with os.fdopen(r) as inp:
+            data = inp.read()
+        _, status = os.waitpid(pid, 0)
+        line = data.split("\n")[0] if data else ""
         try:
-            got.append(json.loads(l))
+            return json.loads(line)
         except ValueError:
-            break
-    how = f"signal {os.WTERMSIG(status)}" if os.WIFSIGNALED(status) else f"exit status {os.WEXITSTATUS(status)}"
-    while len(got) < 2:
-        got.append({"stdout": "", "globals": {}, "exc": "INTERPRETER-CRASH: " + how})
-    return got[0], got[1]
+            how = f"signal {os.WTERMSIG(status)}" if os.WIFSIGNALED(status) else f"exit status {os.WEXITSTATUS(status)}"
+            return {"stdout": "", "globals": {}, "exc": "INTERPRETER-CRASH: " + how}
+    return child(False), child(True)
 
 
 def _run_pair_here(src, text, seconds=5, env_factory=None, only=None):
